@@ -27,3 +27,13 @@ if __name__ == "__main__":
                                "listed here that later fails is reported as a violation even without a counter-model",
                    "proved": ids}, open(os.path.join(HERE, "baseline_obligations.json"), "w"), indent=0)
         print("baseline written:", len(ids))
+        # ordered local names of every function under contract (used to recognise renamed locals, pyvc/symex.py rename_for_locals)
+        from pyvc.extract import Repo
+        from pyvc.symex import Engine
+        repo = Repo("/repo")
+        locs = {}
+        for t in reg:
+            fi = repo.func(t)
+            if fi is not None:
+                locs[t] = Engine.assigned_locals(fi)
+        json.dump(locs, open(os.path.join(HERE, "baseline_locals.json"), "w"), indent=0, sort_keys=True)
